@@ -19,17 +19,22 @@ class EnumIndex:
                 if f.endswith('.rs'):
                     self._scan(os.path.join(d, f))
 
-    def add_dir(self, src_dir):
-        """also index the enums of another crate's sources (types of a dependency that appear in this crate's MIR)"""
+    def add_dir(self, src_dir, module_as=None):
+        """also index the enums of another crate's sources (types of a dependency that appear in this crate's MIR);
+        module_as: the module path under which the files' items are visible (generated code that is `include!`d and re-exported)"""
         keep = self.src_dir
         self.src_dir = src_dir
+        self._module_as = module_as
         for d, _, files in os.walk(src_dir):
             for f in files:
                 if f.endswith('.rs'):
                     self._scan(os.path.join(d, f))
         self.src_dir = keep
+        self._module_as = None
 
     def _module(self, path):
+        if getattr(self, '_module_as', None):
+            return self._module_as
         rel = os.path.relpath(path, self.src_dir)[:-3]
         parts = [p for p in rel.split(os.sep) if p not in ('mod', 'lib')]
         return '::'.join(parts)
@@ -41,8 +46,20 @@ class EnumIndex:
             return
         for m in re.finditer(r'^\s*(?:pub(?:\([^)]*\))?\s+)?type\s+(\w+)\s*=\s*([\w:]+)\s*;', src, re.M):
             self.aliases.setdefault(m.group(1), m.group(2).split('::')[-1])
+        # inline modules (`pub mod x { ... }`, as in prost-generated code): an enum inside belongs to module path + x
+        mods = []
+        for mm in re.finditer(r'\bmod\s+(\w+)\s*\{', src):
+            d, e = 1, mm.end()
+            while e < len(src) and d:
+                if src[e] == '{':
+                    d += 1
+                elif src[e] == '}':
+                    d -= 1
+                e += 1
+            mods.append((mm.end(), e, mm.group(1)))
         for m in re.finditer(r'\benum\s+(\w+)\s*(?:<[^{]*>)?\s*(?:where[^{]*)?\{', src):
             name = m.group(1)
+            inner = '::'.join(n for a, b, n in mods if a <= m.start() < b)
             i = m.end()
             depth, j = 1, i
             while j < len(src) and depth:
@@ -60,7 +77,7 @@ class EnumIndex:
                         nxt = d
                     tbl[v] = nxt
                     nxt += 1
-                self.by_name.setdefault(name, []).append((self._module(path), tbl, [v for v, _ in variants]))
+                self.by_name.setdefault(name, []).append((self._module(path) + ('::' + inner if inner else ''), tbl, [v for v, _ in variants]))
 
     def _variants(self, body):
         # split at top-level commas
@@ -150,9 +167,19 @@ class EnumIndex:
             return None
         if len(cands) > 1 and len(segs) > 1:
             mod = segs[:-1]
-            c2 = [c for c in cands if c[0].split('::')[-len(mod):] == mod]
-            if len(c2) >= 1:
-                cands = c2
+            # the longest suffix of the written module path that some candidate's module path ends with
+            for k in range(len(mod), 0, -1):
+                c2 = [c for c in cands if c[0].split('::')[-k:] == mod[-k:]]
+                if len(c2) >= 1:
+                    cands = c2
+                    break
+            else:
+                # re-exported one level up (`ast::Effect` defined in ast::policy): the written path is a prefix of the module path
+                for mm in (mod, mod[1:]):       # mod[1:]: the path starts with the name of the crate the sources belong to
+                    c2 = [c for c in cands if mm and c[0].split('::')[:len(mm)] == mm]
+                    if len(c2) >= 1:
+                        cands = c2
+                        break
         if len(cands) > 1:
             # identical tables are fine
             if all(c[1] == cands[0][1] for c in cands):
